@@ -165,7 +165,9 @@ def oracle(case, obs):
     want = _eager(e)
     if _num(ob['val']) != _num(want):
       return f'{where}: maybe_make gives {ob["val"]}, eager evaluation gives {want}'
-    key = ('value', repr([e['args'], e['kw'], e['lazy_arg']])) if hashable(e) else ('id', token[i])
+    # hashable arguments: the call is identified by its VALUE (Model(4) is Model(4) whoever traced it)
+    value = repr([[(k, _flat_of(k, w)) for k, w in e['args']], [(k, _flat_of(k, w)) for k, w in e['kw']], e['lazy_arg']])
+    key = ('value', value) if hashable(e) else ('id', token[i])
     hit, stored = lru.get(key)
     built = ob['calls'].count('Model')
     if hit:
